@@ -3,28 +3,85 @@
 #include <fenv.h>
 #include <locale.h>
 #include <string.h>
+#include <stdio.h>
+#include <pthread.h>
+#include <stdint.h>
+
+#include <signal.h>
+
+#include "contain.h"
 
 namespace {
 Ambient g_def;
+sigset_t g_defMask;
+const int WATCHED[] = {SIGFPE, SIGSEGV, SIGBUS, SIGABRT, SIGILL, SIGALRM, SIGTRAP, SIGINT, SIGTERM, SIGPIPE, SIGUSR1, SIGUSR2, SIGCHLD};
+unsigned fpControl() {
+#if defined(__x86_64__)
+    unsigned mx = __builtin_ia32_stmxcsr() & 0xFFC0u;
+    unsigned short cw = 0;
+    __asm__ __volatile__("fnstcw %0" : "=m"(cw));
+    return (mx << 16) | cw;
+#else
+    return 0;
+#endif
 }
+void setFpControl(unsigned v) {
+#if defined(__x86_64__)
+    unsigned mx = (__builtin_ia32_stmxcsr() & 0x3Fu) | ((v >> 16) & 0xFFC0u);
+    __builtin_ia32_ldmxcsr(mx);
+    unsigned short cw = (unsigned short)(v & 0xFFFFu);
+    __asm__ __volatile__("fldcw %0" : : "m"(cw));
+#else
+    (void)v;
+#endif
+}
+unsigned long sigState() {
+    unsigned long h = 1469598103934665603UL;
+    auto mixin = [&](unsigned long v) {
+        h ^= v;
+        h *= 1099511628211UL;
+    };
+    sigset_t cur;
+    sigemptyset(&cur);
+    pthread_sigmask(SIG_SETMASK, nullptr, &cur);
+    for (int s = 1; s < 32; s++) mixin((unsigned long)sigismember(&cur, s));
+    for (int sgn : WATCHED) {
+        struct sigaction sa;
+        memset(&sa, 0, sizeof sa);
+        sigaction(sgn, nullptr, &sa);
+        mixin((unsigned long)(uintptr_t)sa.sa_sigaction);
+        mixin((unsigned long)sa.sa_flags);
+    }
+    return h;
+}
+}  // namespace
 std::string Ambient::describe() const {
     const char *r = round == FE_TONEAREST    ? "FE_TONEAREST"
                     : round == FE_UPWARD     ? "FE_UPWARD"
                     : round == FE_DOWNWARD   ? "FE_DOWNWARD"
                     : round == FE_TOWARDZERO ? "FE_TOWARDZERO"
                                              : "?";
-    return std::string("rounding=") + r + (locale.empty() ? "" : " locale=" + locale);
+    char b[96];
+    snprintf(b, sizeof b, " fp-control=%08x signals=%016lx", fpcw, sig);
+    return std::string("rounding=") + r + b + (locale.empty() ? "" : " locale=" + locale);
 }
 void ambientInit() {
     // a locale other than "C" whose numeric formatting equals "C" (so the
     // simulator's own printf/strtod are unaffected)
     if (!setlocale(LC_ALL, "C.UTF-8")) setlocale(LC_ALL, "C.utf8");
     fesetround(FE_TONEAREST);
+}
+void ambientFixDefault() {
+    // called once the simulator's own signal handlers are installed
+    sigemptyset(&g_defMask);
+    pthread_sigmask(SIG_SETMASK, nullptr, &g_defMask);
     g_def = ambientGet(true);
 }
 Ambient ambientGet(bool withLocale) {
     Ambient a;
     a.round = fegetround();
+    a.fpcw = fpControl();
+    a.sig = sigState();
     if (withLocale) {
         const char *l = setlocale(LC_ALL, nullptr);
         a.locale = l ? l : "";
@@ -32,8 +89,17 @@ Ambient ambientGet(bool withLocale) {
     return a;
 }
 Ambient ambientDefault() { return g_def; }
+void ambientRestoreThread(const Ambient &a) {
+    if (fpControl() != a.fpcw) setFpControl(a.fpcw);
+    if (fegetround() != a.round) fesetround(a.round);
+    if (sigState() != a.sig) {
+        containInstall();  // the simulator's own handlers
+        for (int sgn : {SIGINT, SIGTERM, SIGPIPE, SIGUSR1, SIGUSR2, SIGCHLD}) signal(sgn, SIG_DFL);
+        pthread_sigmask(SIG_SETMASK, &g_defMask, nullptr);
+    }
+}
 void ambientRestore(bool withLocale) {
-    fesetround(g_def.round);
+    ambientRestoreThread(g_def);
     if (withLocale) {
         const char *l = setlocale(LC_ALL, nullptr);
         if (!l || g_def.locale != l) setlocale(LC_ALL, g_def.locale.c_str());
